@@ -39,6 +39,11 @@ func TestCheck(t *testing.T) {
 		for i := 0; i < n; i++ {
 			scs = append(scs, sysrun.Gen(r.Fork(), sysrun.GenOpts{MaxOps: 10, Faults: i%3 == 0, Silences: i%4 == 1, NflogGC: i%5 == 2, MultiInt: i%2 == 0, Flap: i%6 == 3}))
 		}
+		// large groups (17-70 alerts): the subset tests of the dedup decision on long hash lists
+		rm := vh.NewRand(env.Seed + 77040)
+		for i := 0; i < env.N(8, 4); i++ {
+			scs = append(scs, sysrun.Gen(rm.Fork(), sysrun.GenOpts{MaxOps: 4, Many: true, MultiInt: i%2 == 0}))
+		}
 	}
 	for i := range scs {
 		sc := &scs[i]
